@@ -7,7 +7,10 @@ SPEC = {
             "centerToOrigin, single-keyword overrides of the rmsd/eigenvector default fit) x combination (single, coefficient, "
             "exponent 2/3, two-component sum) x geometry x mass/charge table x cell (none, orthorhombic); every base case runs its "
             "complete transformation menu (3 translations, cube rotations + 3 generic, lattice shifts of every whole group along "
-            "every axis, permutations and duplicate listings of every group's atom list). A case is distinct by (base-case id, "
+            "every axis, permutations and duplicate listings of every group's atom list, and - on the cell-free single-component base cases of one "
+            "(thorough: three) geometry/table - the combined menu: duplicate listing of every atom at every insertion position (first/middle/last "
+            "for 5-atom groups) of descending, rotated and two shuffled atom lists, written with one or split over two atomNumbers keywords). "
+            "A case is distinct by (base-case id, "
             "transformation name); it is non-trivial when the configuration parsed, the value was computed by the real library and "
             "compared with the independent reference (rejected duplicate listings and documented-singular geometries are counted "
             "separately and are not non-trivial)",
